@@ -34,7 +34,7 @@ def collect():
     for p in sorted(glob.glob(os.path.join(HERE, 'seeded', '*', 'patch.diff'))):
         meta = json.load(open(os.path.join(os.path.dirname(p), 'meta.json'), encoding='utf-8'))
         out.append({'name': os.path.basename(os.path.dirname(p)), 'patch': p, 'property': meta['property'], 'origin': 'seeded',
-                    'also': meta.get('also_checked_with', [])})
+                    'also': meta.get('also_checked_with', []), 'accept': meta.get('accept')})
     return out
 
 
